@@ -1158,6 +1158,17 @@ func descNN(v ssa.Value) string { return descNND(v, 0) }
 
 func descNND(v ssa.Value, depth int) string {
 	d := desc(v)
+	for {
+		switch x := v.(type) {
+		case *ssa.MakeInterface:
+			v = x.X
+			continue
+		case *ssa.ChangeType:
+			v = x.X
+			continue
+		}
+		break
+	}
 	k := 0
 	c, ok := v.(*ssa.Call)
 	if ex, isEx := v.(*ssa.Extract); isEx {
